@@ -96,6 +96,91 @@ for _with_ctx in (False, True):
     _mkt(_with_ctx)
 
 
+# ---- the t filter leaves TRUSTED message text intact: with autoescape on and autoescape_message
+# ---- off, neither the message, the plural nor the context is HTML-escaped; with both on, each is
+
+@contract(TR + ":Translate.__call__", prop="C26", name="t-filter[message text is escaped exactly when autoescape_message is on]")
+def t_autoescape(c):
+    ae, aem = c.bool("autoescape"), c.bool("autoescape_message")
+    env = mk_env(c, autoescape=ae)
+    ctx = mk_ctx(c, env)
+    left, plural = c.str("message"), c.str("plural_message")
+    count = c.int("count")
+    self = c.obj(TR + ":Translate", "t", autoescape_message=aem, message_interpolation=VBool(z3.BoolVal(False)), translations_var=c.str("tv"), default_translations=NONE)
+    tr = _null_translations(c)
+    c.summary(TR + ":BaseTranslateFilter._resolve_translations", lambda eng, st, a, k: [(st, tr)])
+    c.call(left, self_val=self, context=ctx, count=count, plural=plural)
+    esc = z3.Function("html_escape", S, S)
+    on = z3.And(ae.t, aem.t)
+
+    def post(r):
+        res = unbox_s(r.value)
+        want_s = z3.If(on, esc(left.t), left.t)
+        want_p = z3.If(on, esc(plural.t), plural.t)
+        return res == z3.If(count.t != 1, want_p, want_s)
+    c.ensures("singular-and-plural-text-are-escaped-together-exactly-when-autoescape-and-autoescape_message-are-on", post)
+    c.raises()
+    c.replay("code", code=REPLAY_T_ESCAPE)
+
+
+REPLAY_T_ESCAPE = r'''
+def run(m):
+    from liquid import Environment
+    from liquid.extra import add_filters_and_tags
+    from liquid.extra.filters.translate import Translate
+    env = Environment(autoescape=True)
+    env.add_filter("t", Translate(autoescape_message=False))
+    out = [env.from_string("{{ '<b>one</b>' | t: plural: '<b>many</b>', count: n }}").render(n=n) for n in (1, 2)]
+    return {"violated": out != ["<b>one</b>", "<b>many</b>"], "observed": out, "witness": "trusted-message-text-escaped"}
+'''
+
+
+# ---- format_message (all five filters): every %(name)s of THIS message text is replaced by the
+# ---- named variable -- a keyword argument shadows the render context, also when its value is
+# ---- falsy -- and nothing else in the text changes (concrete message text, arbitrary values)
+
+MESSAGE = "Hi %(name)s, 100% of %(other)s and 50%% %(name)s"
+
+
+@contract(TR + ":BaseTranslateFilter.format_message", prop="C26", name="format_message[keyword arguments shadow the context, whatever their value]")
+def format_message(c):
+    env = mk_env(c, autoescape=VBool(z3.BoolVal(False)))
+    kwv = c.any("keyword_value")
+    c.requires(z3.Not(z3.Or(U.is_ref(kwv.t), U.is_flt(kwv.t))), "a scalar keyword value (nil, boolean, int, string)")
+    outer_name, outer_other = c.str("context_name"), c.str("context_other")
+    scope0 = c.st.alloc(HDict(items={"name": outer_name, "other": outer_other}))
+    ctx = mk_ctx(c, env, maps=[scope0])
+    c.requires(c.st.deref(env).fields["context_depth_limit"].t >= 8, "context depth limit not reached")
+    self = c.obj(TR + ":BaseTranslateFilter", "filter", autoescape_message=c.bool("aem"), message_interpolation=VBool(z3.BoolVal(True)), translations_var=c.str("tv"), default_translations=NONE)
+    mv = c.st.alloc(HDict(items={"name": kwv}))
+    c.call(ctx, const(MESSAGE), mv, self_val=self)
+
+    def post(r):
+        res = unbox_s(r.value)
+        shown = z3.If(U.is_none(kwv.t), z3.StringVal(""), z3.If(U.is_str(kwv.t), U.s(kwv.t), z3.If(U.is_bool(kwv.t), z3.If(U.b(kwv.t), z3.StringVal("true"), z3.StringVal("false")),
+                                                                                                              z3.If(U.i(kwv.t) < 0, z3.Concat(z3.StringVal("-"), z3.IntToStr(-U.i(kwv.t))), z3.IntToStr(U.i(kwv.t))))))
+        want = z3.Concat(z3.StringVal("Hi "), shown, z3.StringVal(", 100% of "), outer_other.t, z3.StringVal(" and 50%% "), shown)
+        return res == want
+    c.ensures("placeholders-of-this-text-are-replaced(keyword-arguments-first)-and-other-percent-signs-stay", post)
+    c.raises()
+    c.assume_note("the message text is the constant '" + MESSAGE + "' (the regular expression is run by the real re module on it); values are arbitrary")
+    c.crosscheck(off=True)
+    c.replay("code", code=REPLAY_FORMAT)
+
+
+REPLAY_FORMAT = r'''
+def run(m):
+    from liquid import Environment
+    env = Environment(extra=True)
+    bad = []
+    for v, shown in ((0, "0"), ("", ""), (False, "false"), (None, ""), ("x", "x")):
+        out = env.from_string("{{ 'Hi %(name)s, 100% of %(other)s' | t: name: v }}").render(v=v, name="OUTER", other="o")
+        if out != f"Hi {shown}, 100% of o":
+            bad.append((v, out))
+    return {"violated": bool(bad), "observed": bad, "witness": "falsy-keyword-argument-not-shadowing"}
+'''
+
+
 TAG = "liquid.extra.tags.translate_tag"
 
 for _with_ctx in (False, True):
@@ -118,6 +203,56 @@ for _with_ctx in (False, True):
                 c.raises()
                 c.replay("code", code=REPLAY_TAGCOUNT)
         _mkg(_with_ctx, _has_plural)
+
+
+@contract(TAG + ":TranslateNode._format_message", prop="C26", name="translate-tag._format_message[the placeholders of the text being formatted, on every render]")
+def tag_format_twice(c):
+    """The same node formats its singular text on one render and its plural text on the next:
+    each time the variables resolved are the %(name)s placeholders of THAT text."""
+    env = mk_env(c, autoescape=VBool(z3.BoolVal(False)))
+    ctx = mk_ctx(c, env)
+    sb = c.obj(TAG + ":MessageBlock", "singular", text=const("%(count)s item for %(who)s"))
+    pb = c.obj(TAG + ":MessageBlock", "plural", text=const("%(count)s items in %(where)s"))
+
+    def resolve(eng, st, a, k):
+        st.log.append(("resolve", concrete(a[1])[1]))
+        return [(st, VStr(z3.String(f"value_of_{concrete(a[1])[1]}_{len(st.log)}")))]
+    c.summary(CTX + ".resolve", resolve)
+
+    def entry(eng, cc, func):
+        outs = []
+        for s0, node in eng.instantiate(cc.st, VClass(TAG, "TranslateNode"), [NONE], dict(args=cc.st.alloc(HDict(items={})), singular_block=sb, plural_block=pb)):
+            if isinstance(node, Raised):
+                outs.append((s0, node))
+                continue
+            for s1, r1 in eng.run(func, s0, [ctx, const("%(count)s item for %(who)s")], {}, self_val=node):
+                if isinstance(r1, Raised):
+                    outs.append((s1, r1))
+                    continue
+                n1 = len(s1.log)
+                for s2, r2 in eng.run(func, s1, [ctx, const("%(count)s items in %(where)s")], {}, self_val=node):
+                    if isinstance(r2, Raised):
+                        outs.append((s2, r2))
+                        continue
+                    first = [e[1] for e in s2.log[:n1] if e[0] == "resolve"]
+                    second = [e[1] for e in s2.log[n1:] if e[0] == "resolve"]
+                    vals = {}
+                    for k_, e in enumerate(s2.log):
+                        if e[0] == "resolve":
+                            vals[(e[1], k_ < n1)] = z3.String(f"value_of_{e[1]}_{k_ + 1}")
+                    ok_names = first == ["count", "who"] and second == ["count", "where"]
+                    if not ok_names:
+                        outs.append((s2, Ret(VBool(z3.BoolVal(False)))))
+                        continue
+                    want1 = z3.Concat(vals[("count", True)], z3.StringVal(" item for "), vals[("who", True)])
+                    want2 = z3.Concat(vals[("count", False)], z3.StringVal(" items in "), vals[("where", False)])
+                    outs.append((s2, Ret(VBool(z3.And(unbox_s(r1.val if isinstance(r1, Ret) else r1) == want1, unbox_s(r2.val if isinstance(r2, Ret) else r2) == want2)))))
+        return outs
+    c.entry = entry
+    c.ensures("each-render-replaces-exactly-the-placeholders-of-its-own-message-text-and-nothing-else", lambda r: r.value.t)
+    c.raises()
+    c.assume_note("printf formatting of a constant format made of literal text, %% and %(name)s is computed exactly ('%(k)s' % d == str(d[k]))")
+    c.replay("code", code=REPLAY_TAGCOUNT)
 
 
 @contract(TAG + ":TranslateNode.resolve_count", prop="C26")
@@ -182,7 +317,7 @@ def substitution_shape():
     return obs
 
 
-not_covered("C26", "real message catalogues", "the regular-expression semantics of re_vars (trusted: DESIGN 3); the substitution result itself is decided by the bounded exhaustive check against a reference substitution, not by proof")
+not_covered("C26", "real message catalogues", "the regular-expression semantics of re_vars are those of the real `re` module run on CONSTANT message texts (format_message and the tag's _format_message are proved for two constant texts with arbitrary values); arbitrary message texts are decided by the bounded exhaustive check against a reference substitution")
 
 bounded("C26", "bounded/C26.py")
 
